@@ -107,7 +107,7 @@ func chainEdgeClass(c *Cond) string {
 
 func ruleC01ChainExit(r *Run, p *Program, rule string) {
 	walkers := chainWalkers(p)
-	r.universe(rule, len(walkers), 6)
+	r.universe(rule, len(walkers), 4)
 	exits := 0
 	for f, calls := range walkers {
 		r.fn(funcKey(f))
@@ -204,7 +204,7 @@ func derivesFrom(v ssa.Value, pred func(ssa.Value) bool) bool {
 
 func ruleC01MatchEqual(r *Run, p *Program, rule string) {
 	cls := matchKeyClosures(p)
-	r.universe(rule, len(cls), 5)
+	r.universe(rule, len(cls), 3)
 	for _, f := range cls {
 		r.fn(funcKey(f))
 		// the bytes.Equal calls comparing the sought key with the stored key
@@ -469,54 +469,64 @@ func ruleC01Split(r *Run, p *Program, rule string) {
 		return
 	}
 	r.fn(funcKey(f))
-	var stSplit, stLevel, stNumBuckets []ssa.Instruction
-	var bucketIndexCalls, writes []ssa.Instruction
-	instrsOf(f, func(in ssa.Instruction) {
-		switch x := in.(type) {
+	all, root := allNodes(p, f)
+	var stSplit, stLevel, stNumBuckets, bucketIndexCalls, writes []Node
+	for nd := range all.Reached {
+		// only the split's own frame and helpers extracted from it; not the insert/write machinery
+		k := funcKey(nd.Ctx.Fn)
+		if strings.HasPrefix(k, "(*pogreb.slotWriter).") || strings.HasPrefix(k, "(*pogreb.bucket") || k == "(*pogreb.index).bucketIndex" || k == "(*pogreb.index).createOverflowBucket" {
+			continue
+		}
+		switch x := nd.In.(type) {
 		case *ssa.Store:
 			switch fieldName(x.Addr) {
 			case "pogreb.index.splitBucketIdx":
-				stSplit = append(stSplit, x)
+				stSplit = append(stSplit, nd)
 			case "pogreb.index.level":
-				stLevel = append(stLevel, x)
+				stLevel = append(stLevel, nd)
 			case "pogreb.index.numBuckets":
-				stNumBuckets = append(stNumBuckets, x)
+				stNumBuckets = append(stNumBuckets, nd)
 			}
 		case *ssa.Call:
 			switch calleeKey(&x.Call) {
 			case "(*pogreb.index).bucketIndex":
-				bucketIndexCalls = append(bucketIndexCalls, x)
+				bucketIndexCalls = append(bucketIndexCalls, nd)
 			case "(*pogreb.slotWriter).write":
-				writes = append(writes, x)
+				writes = append(writes, nd)
 			}
 		}
-	})
-	if !r.anchor(rule, "stores to splitBucketIdx/level/numBuckets and bucketIndex/write calls in split", len(stSplit) > 0 && len(stLevel) > 0 && len(stNumBuckets) > 0 && len(bucketIndexCalls) > 0 && len(writes) >= 2) {
+	}
+	if !r.anchor(rule, "stores to splitBucketIdx/level/numBuckets and bucketIndex/write calls under split", len(stSplit) > 0 && len(stLevel) > 0 && len(stNumBuckets) > 0 && len(bucketIndexCalls) > 0 && len(writes) >= 2) {
 		return
 	}
-	// 1. no store to the addressing state is reachable after a redistribution decision
-	w := &Walk{Fn: f}
-	w.From(bucketIndexCalls...)
-	late := false
-	for _, s := range append(append([]ssa.Instruction{}, stSplit...), stLevel...) {
-		if w.Visited[s] {
-			late = true
-			r.bad(rule, funcKey(f)+":addressing-before-redistribution", p.Pos(instrPos(s)), "the split pointer / level is updated after slots were already assigned to buckets with bucketIndex(): old and new addressing are mixed within one split")
-		}
-	}
-	// and every bucketIndex call is preceded by the split-pointer increment
-	pre := true
-	for _, c := range bucketIndexCalls {
-		if !mustPrecede(f, c, func(in ssa.Instruction) bool {
-			for _, s := range stSplit {
-				if s == in {
+	isIn := func(set []Node) func(n Node) bool {
+		return func(n Node) bool {
+			for _, s := range set {
+				if s == n {
 					return true
 				}
 			}
 			return false
-		}) {
+		}
+	}
+	// 1. no store to the addressing state is reachable after a redistribution decision
+	w1 := &IPWalk{P: p}
+	w1.Run(root, bucketIndexCalls)
+	late := false
+	for _, s := range append(append([]Node{}, stSplit...), stLevel...) {
+		if w1.Reached[s] {
+			late = true
+			r.bad(rule, funcKey(f)+":addressing-before-redistribution", p.Pos(instrPos(s.In)), "the split pointer / level is updated after slots were already assigned to buckets with bucketIndex(): old and new addressing are mixed within one split")
+		}
+	}
+	// and every bucketIndex call is preceded by the split-pointer increment
+	w2 := &IPWalk{P: p, Visit: isIn(stSplit)}
+	w2.Run(root, nil)
+	pre := true
+	for _, c := range bucketIndexCalls {
+		if w2.Reached[c] {
 			pre = false
-			r.bad(rule, funcKey(f)+":addressing-before-redistribution", p.Pos(instrPos(c)), "slots are redistributed with bucketIndex() before the split pointer was advanced: every slot maps back to the old bucket")
+			r.bad(rule, funcKey(f)+":addressing-before-redistribution", p.Pos(instrPos(c.In)), "slots are redistributed with bucketIndex() before the split pointer was advanced: every slot maps back to the old bucket")
 		}
 	}
 	if !late && pre {
@@ -524,7 +534,7 @@ func ruleC01Split(r *Run, p *Program, rule string) {
 	}
 	// 2. numBuckets is bumped exactly once, by one, after both bucket writes
 	for _, s := range stNumBuckets {
-		st := s.(*ssa.Store)
+		st := s.In.(*ssa.Store)
 		bo, ok := st.Val.(*ssa.BinOp)
 		one := false
 		if ok && bo.Op == token.ADD && isFieldLoad(bo.X, "pogreb.index.numBuckets") {
@@ -532,20 +542,45 @@ func ruleC01Split(r *Run, p *Program, rule string) {
 				one = true
 			}
 		}
-		r.check(one && len(stNumBuckets) == 1, rule, funcKey(f)+":numBuckets+1", p.Pos(instrPos(s)), "numBuckets grows by exactly one per split", "numBuckets is not incremented by exactly one, once, per split")
+		r.check(one && len(stNumBuckets) == 1, rule, funcKey(f)+":numBuckets+1", p.Pos(instrPos(s.In)), "numBuckets grows by exactly one per split", "numBuckets is not incremented by exactly one, once, per split")
 		cnt := 0
 		for _, wr := range writes {
-			if mustPrecedeInstr(f, s, wr) {
+			wr := wr
+			w3 := &IPWalk{P: p, Visit: func(n Node) bool { return n == wr }}
+			w3.Run(root, nil)
+			if !w3.Reached[s] {
 				cnt++
 			}
 		}
-		r.check(cnt >= 2, rule, funcKey(f)+":numBuckets-after-writes", p.Pos(instrPos(s)),
+		r.check(cnt >= 2, rule, funcKey(f)+":numBuckets-after-writes", p.Pos(instrPos(s.In)),
 			"numBuckets (the bound of iteration and addressing) is published only after both buckets were written",
 			fmt.Sprintf("numBuckets is incremented before both bucket chains were written (%d of %d writes precede it)", cnt, len(writes)))
 	}
+	// both chains are written completely: through slotWriter.write (previous buckets first), never a bare bucket write
+	bare := false
+	for nd := range all.Reached {
+		if c, ok := nd.In.(*ssa.Call); ok && calleeKey(&c.Call) == "(*pogreb.bucketHandle).write" {
+			inWriter := false
+			for cx := nd.Ctx; cx != nil; cx = cx.Parent {
+				if funcKey(cx.Fn) == "(*pogreb.slotWriter).write" {
+					inWriter = true
+				}
+			}
+			if !inWriter {
+				bare = true
+				r.bad(rule, funcKey(f)+":writes-whole-chain", p.Pos(instrPos(nd.In)), "split writes a bucket directly instead of through slotWriter.write: when the rebuilt chain itself overflowed, its earlier buckets (head bucket in the main file) are never written and keep stale slots and a stale overflow link")
+			}
+		}
+	}
+	if !bare {
+		r.ok(rule, funcKey(f)+":writes-whole-chain", p.Pos(f.Pos()), "both rebuilt chains are written through slotWriter.write (all filled buckets, then the last)", true)
+	}
 	// 3. the new bucket is the one just appended to the main file: its offset is the result of main.extend
 	var ext []*ssa.Call
-	instrsOf(f, func(in ssa.Instruction) {
+	deepInstrs(p, f, func(in ssa.Instruction) {
+		if k := funcKey(in.Parent()); k == "(*pogreb.index).createOverflowBucket" {
+			return
+		}
 		if c, ok := in.(*ssa.Call); ok && calleeKey(&c.Call) == "(*pogreb.file).extend" {
 			ext = append(ext, c)
 		}
@@ -553,7 +588,7 @@ func ruleC01Split(r *Run, p *Program, rule string) {
 	r.check(len(ext) == 1, rule, funcKey(f)+":one-extend", p.Pos(f.Pos()), "split appends exactly one bucket to the main index file", fmt.Sprintf("split calls file.extend %d times (want 1)", len(ext)))
 	// 4. the old overflow buckets are freed only after the walk finished (not while the chain is still being read)
 	var frees []ssa.Instruction
-	instrsOf(f, func(in ssa.Instruction) {
+	deepInstrs(p, f, func(in ssa.Instruction) {
 		if c, ok := in.(*ssa.Call); ok && calleeKey(&c.Call) == "(*pogreb.index).freeOverflowBucket" {
 			frees = append(frees, c)
 		}
@@ -637,7 +672,7 @@ func ruleC01Addressing(r *Run, p *Program, rule string) {
 			}
 		})
 	}
-	r.universe(rule, n, 6)
+	r.universe(rule, n, 4)
 	// the slot stored by Put carries the hash that addressed the chain and the location datalog.put returned
 	if f := p.Fn("(*pogreb.DB).Put"); r.anchor(rule, "(*pogreb.DB).Put", f != nil) {
 		checkSlotLiteral(r, p, rule, f, "(*pogreb.datalog).put")
